@@ -4,6 +4,7 @@
    [connected; defer disconnected; next] under Go's defer semantics. The relay stage and the errors produced for each failure
    mode are net/http's; they are modelled from the Go 1.23 source and compared with the real exchange by the harness. *)
 From Oxy Require Import Base.Prelude Model.Source Model.Forward Proofs.ForwardProofs Model.ForwardErr Proofs.ForwardErrProofs.
+From Oxy Require Gen.Consts.
 Open Scope Z_scope.
 
 (* the status map is total and order-sensitive: a timeout that is a net.Error is 504 even when it also wraps io.EOF or
@@ -67,6 +68,15 @@ Example C16_without_defer_unpaired :
   exec_body [Call Connected; Next; Call Disconnected] Panic [] = ([Connected], Panic) /\
   exec_body [Call Connected; Next; Call Disconnected] Return [] = ([Connected; Disconnected], Return).
 Proof. split; reflexivity. Qed.
+
+(* the model's chain of tests and statuses is the one utils/handler.go has now: tools/consts re-extracts the if/else chain
+   of StdHandler.ServeHTTP (conditions in order: net.Error with Timeout, other net.Error, io.EOF, context.Canceled,
+   otherwise) on every run; a reshaped chain yields [] and this theorem stops checking *)
+Theorem C16_constants_match_source :
+  Consts.stdHandlerStatuses = map class_status [Timeout; NetOther; EOF; Canceled; Other] /\
+  Consts.StatusClientClosedRequest = class_status Canceled.
+Proof. split; reflexivity. Qed.
+Print Assumptions C16_constants_match_source.
 
 (* non-vacuity: the harness encoding of an abort during body copy, a timeout and an order-sensitive error *)
 Example C16_examples :
